@@ -106,3 +106,9 @@ consts_of = lambda c: dict(K=c['nsrc'], NE=6, MaxSize=c['maxsize'], SyncCons=c['
 def replay(v):
     import sys as _s
     return amod.replay_node(_s.modules[__name__], v)
+
+
+def canaries(tier, seed):
+    r = run("quick", seed, mutant="zip_notify_one", only_validate=True)
+    n = [v for v in r.violations if v["signature"].get("kind") not in ("premature-callback", "parallelism-exceeded")]
+    return [dict(name="mutant:zip_notify_one", detected=bool(n), rejected=len(n))]
